@@ -78,17 +78,42 @@ pub fn sources(ctx: &Ctx, rng: &mut Rng) -> Vec<Source> {
             tt += step;
         }
     }
-    // random CNFs
+    // random CNFs in three classes: sparse (many free / implied features), constrained 2/3-CNF
+    // near the satisfiability threshold, and mixed widths with unit clauses
     let nrand = ctx.count;
     for k in 0..nrand {
         let n = 2 + rng.below(if quick { 9 } else { 15 }) as u32;
-        let m = rng.below(2 * n as u64 + 1) as usize;
-        let maxw = 1 + rng.below(4) as usize;
         let extra = rng.below(3) as u32;
+        let class = rng.below(3);
+        let (cnf, cdesc) = match class {
+            0 => {
+                let m = rng.below(n as u64 + 1) as usize;
+                (random_cnf(rng, n, m, 3), format!("sparse m={}", m))
+            }
+            1 => {
+                let m = (n as usize) + rng.below(2 * n as u64 + 1) as usize;
+                let mut c = random_cnf(rng, n, m, 3);
+                for cl in c.iter_mut() {
+                    // widen unit clauses so that the formula stays interesting
+                    if cl.len() == 1 {
+                        let v = 1 + rng.below(n as u64) as i32;
+                        if v != cl[0].abs() {
+                            cl.push(if rng.coin() { v } else { -v });
+                        }
+                    }
+                }
+                (c, format!("constrained m={}", m))
+            }
+            _ => {
+                let m = rng.below(2 * n as u64 + 1) as usize;
+                let maxw = 1 + rng.below(4) as usize;
+                (random_cnf(rng, n, m, maxw), format!("mixed m={} w<={}", m, maxw))
+            }
+        };
         v.push(Source {
-            cnf: random_cnf(rng, n, m, maxw),
+            cnf,
             n: n + extra,
-            desc: format!("random#{} n={} m={} w<={} extra={}", k, n, m, maxw, extra),
+            desc: format!("random#{} n={} {} extra={}", k, n, cdesc, extra),
         });
     }
     v
